@@ -111,6 +111,7 @@ package xmodel
 //@ func XModel.verifyInputs
 //@   property C03
 //@   ensures every_cited_version_is_current: result == nil ==> (forall i int :: 0 <= i && i < len(tx.TxInputsExt) ==> curVer(s, tx, tx.TxInputsExt[i]) == verOfInput(tx.TxInputsExt[i]))
+//@   ensures [C09] stale_declared_read_is_rejected: result == nil ==> (forall i int :: 0 <= i && i < len(tx.TxInputsExt) ==> curVer(s, tx, tx.TxInputsExt[i]) == verOfInput(tx.TxInputsExt[i]))
 //@   ensures read_only: sel(syncVal, s.batchCache) == old(sel(syncVal, s.batchCache)) && s.batchCache == old(s.batchCache)
 //@   loop 1 invariant checked_so_far: 0 <= $i && $i <= len(tx.TxInputsExt) && sel(syncVal, s.batchCache) == old(sel(syncVal, s.batchCache)) && s.batchCache == old(s.batchCache) && (forall i int :: 0 <= i && i < $i ==> curVer(s, tx, tx.TxInputsExt[i]) == verOfInput(tx.TxInputsExt[i]))
 
@@ -146,6 +147,8 @@ package xmodel
 //@   uses concatFirstChar
 //@   ensures [C01] pointer_moves_to_the_written_version: movedTo(tx, batch, len(tx.TxOutputsExt))
 //@   ensures [C01] only_pointer_tables_written: forall k string :: k[0] != 90 ==> bop(batch, k) == old(bop(batch, k))
+// C09: committing changes exactly the declared keys to exactly the declared versions
+//@   ensures [C09] commit_moves_exactly_the_declared_keys: movedTo(tx, batch, len(tx.TxOutputsExt)) && (forall k string :: k[0] != 90 ==> bop(batch, k) == old(bop(batch, k)))
 //@   loop 1 invariant [C01] only_pointer_tables_so_far: forall k string :: k[0] != 90 ==> bop(batch, k) == old(bop(batch, k))
 //@   loop 1 invariant [C01] moved_so_far: 0 <= $i && $i <= len(tx.TxOutputsExt) && movedTo(tx, batch, $i)
 //@   ensures written_versions_cached: len(tx.Blockid) > 0 ==> cachedUpTo(s, tx, len(tx.TxOutputsExt))
@@ -190,3 +193,22 @@ package xmodel
 // (present, version); the lemma composes the two contracts above.
 //@ lemma undo_cancels_play_per_key: forall cited string, citedDel bool, ver string, isDel bool, e0 bool, ev0 string, g0 bool, gv0 string :: (cited == "" ? !e0 && !g0 : (citedDel ? !e0 && g0 && gv0 == cited : e0 && ev0 == cited && !g0)) ==> ((cited == "" ? false : (citedDel ? false : true)) == e0 && (cited == "" ? "" : (citedDel ? "" : cited)) == (e0 ? ev0 : "") && (cited == "" ? (isDel ? false : g0) : (citedDel ? true : (isDel ? false : g0))) == g0 && (cited != "" && citedDel ==> gv0 == cited))
 //@   property C01
+
+// ======================= C09: declared writes against re-executed writes =======================
+// Two write-set entries are the same exactly when bucket/key (as raw key) and value
+// content agree; Equal compares two write sets of the same length entry by entry
+// after sorting copies of both.
+//@ macro pdRaw(x) = (x == nil ? "" : x.Bucket) + "/" + (x == nil ? "" : str(x.Key))
+//@ macro pdVal(x) = (x == nil ? "" : str(x.Value))
+//@ func equal
+//@   property C09
+//@   ensures same_key_and_value: result == (pdRaw(pd) == pdRaw(vpd) && pdVal(pd) == pdVal(vpd))
+//@ func Equal
+//@   property C09
+//@   sets lastEqualOK = result
+//@   local pds pdSlice
+//@   local vpds pdSlice
+//@   ensures different_sizes_differ: len(pd) != len(vpd) ==> !result
+//@   at equal assert entry_by_entry_in_sorted_order: 0 <= i && i < len(pds) && $0 == pds[i] && $1 == vpds[i]
+//@   at sort.Sort#1 assert sorts_a_copy_of_the_first: $0 == boxed(pds)
+//@   at sort.Sort#2 assert sorts_a_copy_of_the_second: $0 == boxed(vpds)
